@@ -46,13 +46,13 @@ EXHAUSTIVE = {'quick': True, 'thorough': True}
 MIN_HITS = {
     'quick': {
         'mon:concat-pcd': 3500, 'mon:concat-pfd': 3500, 'mon:full-pcd': 15000, 'mon:full-pfd': 15000, 'mon:bucket-pcd': 7000,
-        'mon:bucket-pfd': 7000, 'mon:repeat-padded': 6000, 'mon:reject': 500, 'reject:padded-preprocessor': 60,
+        'mon:bucket-pfd': 7000, 'mon:repeat-padded': 6000, 'mon:reject': 400, 'reject:padded-preprocessor': 60,
         'reject:padded-features': 60, 'reject:bsb-preprocessor': 50, 'reject:bsb-features': 50,
-        'mon:multiset-shuffle': 2500, 'mon:repro-shuffle': 2500, 'mon:order-shuffle': 400, 'mon:repeat-iter': 350,
+        'mon:multiset-shuffle': 2500, 'mon:repro-shuffle': 2500, 'mon:order-shuffle': 400, 'mon:repeat-iter': 300,
         'mon:bsbshape': 2500, 'mon:multiset-bsb': 2500, 'mon:bsbrows': 2500, 'mon:repro-bsb': 2500, 'mon:order-bsb': 300,
         'mon:fdstream': 900, 'mon:repro-fdstream': 150, 'mon:clients': 200, 'mon:repro-clients': 200, 'mon:readonly': 4000,
         'padded:fits-in-buffer': 1000, 'padded:exactly-fills': 500, 'padded:spans-several-batches': 1000,
-        'padded:leaves-exact-batch': 1000, 'padded:empty-client': 1000, 'padded:total=0': 20, 'repeat:copying': 50,
+        'padded:leaves-exact-batch': 1000, 'padded:empty-client': 1000, 'padded:total=0': 20, 'repeat:copying': 40,
         'repeat:container': 50, 'shuffle:buffer>len': 100, 'shuffle:buffer=len': 50, 'shuffle:buffer<len': 200,
         'shuffle:buffer=1': 40, 'iter:generator': 500, 'iter:repeatable-gen': 500,
     },
